@@ -2,6 +2,8 @@
 
 Protocol (model name `cal`; days are datetime.toordinal() numbers, plain integer atoms):
   (cal new t0 t1 (L weekend*) (L holiday*) adj)   Calendar(None, holidays, weekend, t0, t1, adj) becomes the current calendar
+  (cal newd ...)                                   the same, the holidays handed over as datetime.date objects (even positions) and
+                                                   as datetimes with a time of day (odd positions): a holiday is a DAY
   (cal reg <key> hol|N weekend|N t0|N t1|N)        calendar(key, ...) through the module registry; reply describes the calendar
   (cal isb t) (cal ishol t) (cal adjust a t) (cal add a t n) (cal bump a t n) (cal bdays a x y) (cal drange x y b)
   (cal ymd n)                                      the model's Gregorian arithmetic against datetime
@@ -226,13 +228,18 @@ def interesting_days(rng, cal, count):
     return sorted(list(must) + days[:max(0, count - len(must))])
 
 
-KINDS = {3: 'longrun', 7: 'outside', 17: 'outside'}    # calendar index mod 20 -> class (else 'std')
+KINDS = {3: 'longrun', 7: 'outside', 17: 'outside', 11: 'dates'}    # calendar index mod 20 -> class (else 'std')
 
 
-def new_line(cal, scalar_weekend=False):
+def new_line(cal, scalar_weekend=False, dates=False):
     t0, t1, weekend, hol, adj = cal
     we = '%d' % weekend[0] if scalar_weekend and len(weekend) == 1 else ilist(weekend)
-    return '(cal new %d %d %s %s %s)' % (t0, t1, we, ilist(hol), adj)
+    return '(cal %s %d %d %s %s %s)' % ('newd' if dates else 'new', t0, t1, we, ilist(hol), adj)
+
+
+def as_dates(hol):
+    """the holidays of a `newd` line as the caller's objects: datetime.date / datetime with a time of day"""
+    return [fo(h).date() if i % 2 == 0 else fo(h) + datetime.timedelta(hours=9, minutes=30) for i, h in enumerate(hol)]
 
 
 # spellings of a convention: the code takes `adj.lower()` and looks at its first letter (_drange.py:542)
@@ -247,7 +254,7 @@ def generate(rng, tier):
     yield dict(tag='civil', lines=lines)
     for ci in range(ncal):
         kind = KINDS.get(ci % 20, 'std')
-        cal = rand_calendar(rng, tier, kind)
+        cal = rand_calendar(rng, tier, 'std' if kind == 'dates' else kind)
         t0, t1, weekend, hol, adj = cal
         nv = Naive(*cal)
         dens = len(hol) / float(t1 - t0 + 1)
@@ -255,7 +262,7 @@ def generate(rng, tier):
                                             '0' if not hol else '<5%' if dens < 0.05 else '<15%' if dens < 0.15 else '>=15%')
         if kind != 'std':
             tag = 'cal %s we=%s adj=%s' % (kind, ''.join(map(str, weekend)) or '-', adj)
-        lines = [new_line(cal, scalar_weekend=(ci % 2 == 0))]
+        lines = [new_line(cal, scalar_weekend=(ci % 2 == 0), dates=(kind == 'dates'))]
         for t in interesting_days(rng, cal, ndays):
             lines.append('(cal isb %d)' % t)
             lines.append('(cal ishol %d)' % t)
@@ -384,10 +391,12 @@ def run_line(state, sx):
     if op == 'ymd':
         t = fo(int(args[0]))
         return 'ok (T I:%d I:%d I:%d I:%d)' % (t.year, t.month, t.day, t.weekday())
-    if op == 'new':
+    if op in ('new', 'newd'):
         t0, t1 = int(args[0]), int(args[1])
         weekend = [int(x) for x in args[2][1:]] if isinstance(args[2], list) else int(args[2])   # a scalar: weekend = 6
         hol = [fo(int(x)) for x in args[3][1:]]
+        if op == 'newd':
+            hol = as_dates([int(x) for x in args[3][1:]])
         state['cal'] = Calendar(None, holidays=hol, weekend=weekend, t0=fo(t0), t1=fo(t1), adj=args[4])
         return 'ok N'
     if op == 'reg':
@@ -443,7 +452,7 @@ def compare(case, i, line, ir, mr):
 
 
 def nontrivial(line, reply):
-    return reply.startswith('ok') and not line.startswith('(cal new') and not line.startswith('(cal ymd')
+    return reply.startswith('ok') and not line.startswith('(cal new') and not line.startswith('(cal ymd')    # ('(cal newd' too)
 
 
 # ------------------------------------------------------------------ laws: the statement, clause by clause, on the implementation
@@ -472,8 +481,9 @@ def _laws(rng, tier, ctx):
         cal = rand_calendar(rng, tier, {2: 'longrun', 5: 'outside'}.get(li % 10, 'std'))
         t0, t1, weekend, hol, adj = cal
         nv = Naive(*cal)
-        c = Calendar(None, holidays=[fo(h) for h in hol], weekend=list(weekend), t0=fo(t0), t1=fo(t1), adj=adj)
-        nl = new_line(cal)
+        dates = li % 10 == 8     # holidays as datetime.date / with a time of day
+        c = Calendar(None, holidays=as_dates(hol) if dates else [fo(h) for h in hol], weekend=list(weekend), t0=fo(t0), t1=fo(t1), adj=adj)
+        nl = new_line(cal, dates=dates)
 
         def bad(tag, lines, msg):
             return Finding('violation', dict(tag='law-' + tag, lines=[nl] + lines), msg)
@@ -582,7 +592,6 @@ def shrink(case, still_fails):
     """a case is [new/reg ..., op, op, ...]: bisect for the first failing line, keep only the set-up lines and that
     line, then delta-debug the holiday list of the `new` line"""
     lines = case['lines']
-    setup = [i for i, l in enumerate(lines) if l.startswith('(cal new') or l.startswith('(cal reg')]
     if not lines[0].startswith('(cal new'):
         # registry history: drop lines from the end / the middle while it still fails
         best = case
